@@ -380,6 +380,7 @@ structure MSlot where
   uris : List Nat := []          -- live resource subscriptions (legacy: subscribe ok; modern: acked listen)
   otherListenEnded : Bool := false  -- a per-URI listen of this session ended after `granted` was set (F19 shape)
   owed : List Kind := []
+  skipped : List Kind := []      -- owed kinds for which a callback ran without reaching this (entitled) session
   maxHandled : List (String × Nat) := []
   invalidated : List String := []
   suspect : List (String × Nat) := []
@@ -495,20 +496,18 @@ def monitorStep (m : Mon) (toks : List String) (impl : String) : Mon × Option S
           else none)
         let dup := (List.range 3).any (fun i => (ds.filter (·.slot == i)).length > 1)
         let got (i : Nat) : Bool := ds.any (·.slot == i)
-        let missed := (List.range 3).map (fun i =>
-          let d := m.slot i
-          if d.owed.contains k && entitledNow d k && !got i then
-            if d.modern && d.otherListenEnded then
-              some "C18: F19 at_least_one_after_burst: the session's list-changed subscription was dropped when another subscriptions/listen of the same session ended"
-            else some "C18: at_least_one_after_burst: an entitled session connected since the last change is missing from the snapshot's send list"
-          else none)
-        let viol := first (perDelivery ++ missed ++
+        let viol := first (perDelivery ++
           [if dup then some "C18: fanout_entitled_only: a session got the same notification twice" else none])
-        -- bookkeeping: debts of kind k are discharged; recipients handled the notification
+        -- bookkeeping: a recipient's debt of kind k is discharged (the notification was sent after the
+        -- change that created it) and it handled the notification; a session that is not entitled at this
+        -- snapshot is owed nothing; an entitled session that was skipped stays in debt — `end` reports it
+        -- unless a later callback reaches it
         let m := { m with slots := (List.range 3).map (fun i =>
           let d := m.slot i
-          let d := { d with owed := d.owed.filter (· != k) }
-          if got i then d.handled m (keysOfKind k) else d) }
+          if got i then ({ d with owed := d.owed.filter (· != k), skipped := d.skipped.filter (· != k) }).handled m (keysOfKind k)
+          else if d.owed.contains k && entitledNow d k then
+            { d with skipped := if d.skipped.contains k then d.skipped else d.skipped ++ [k] }
+          else { d with owed := d.owed.filter (· != k) }) }
         (m, viol)
   | ["connect", c, _, g, _] =>
     match parseSlot c with
@@ -617,11 +616,14 @@ def monitorStep (m : Mon) (toks : List String) (impl : String) : Mon × Option S
   | ["end"] =>
     let left := (List.range 3).map (fun i =>
       let d := m.slot i
-      if Kind.all.any (fun k => d.owed.contains k && entitledNow d k) then
+      match Kind.all.find? (fun k => d.owed.contains k && entitledNow d k) with
+      | none => none
+      | some k =>
         if d.modern && d.otherListenEnded then
           some "C18: F19 at_least_one_after_burst: the session's list-changed subscription was dropped when another subscriptions/listen of the same session ended"
-        else some "C18: no_lost_notification: changes were made, every timer has fired and every callback has run, yet an entitled session was never notified after the last change"
-      else none)
+        else if d.skipped.contains k then
+          some "C18: at_least_one_after_burst: callbacks ran after the last change but none of them notified this entitled session"
+        else some "C18: no_lost_notification: changes were made, every timer has fired and every callback has run, yet an entitled session was never notified after the last change")
     (m, first left)
   | _ => (m, none)
 
